@@ -509,3 +509,119 @@ def option_invariants(facts, rep):
     for k, v in ctor.items():
         inv[(OPT, k)] = v
     return inv
+
+
+# ---------------------------------------------------------------------------------------------
+# V6  FAT32 has no fixed root-directory region: the root size used for sizing / written to the BPB depends on the FAT type
+
+def control_tokens(fn, d, locals_):
+    """dependence tokens of the conditions that choose between two assignments of one of the given locals
+    (`let x = if c { a } else { b }`): a switch two of whose arms reach different, non-empty sets of the local's
+    assignment sites.  Early returns (an arm that reaches no assignment at all) are not choices of a value."""
+    toks = set()
+    per_local = {}
+    for bi in fn.reachable():
+        for s in fn.blocks[bi]['stmts']:
+            if s['k'] == 'assign' and s['lhs']['l'] in locals_ and not s['lhs']['p']:
+                per_local.setdefault(s['lhs']['l'], set()).add(bi)
+        t = fn.blocks[bi]['term']
+        if t['k'] == 'call' and t['dest']['l'] in locals_ and not t['dest']['p']:
+            per_local.setdefault(t['dest']['l'], set()).add(bi)
+    multi = {l: bs for l, bs in per_local.items() if len(bs) >= 2}
+    if not multi:
+        return toks
+    for bi in fn.reachable():
+        t = fn.blocks[bi]['term']
+        if t['k'] != 'switch':
+            continue
+        arms = sorted(set(fn.succ(bi)))
+        if len(arms) < 2:
+            continue
+        reach = [fn.reach_from([a], cut_blocks=[bi]) for a in arms]
+        for l, bs in multi.items():
+            seen = [frozenset(b for b in bs if b in r) for r in reach]
+            if len({x for x in seen if x}) >= 2:
+                toks |= d.of_operand(t['discr'])
+                src = switch_source(fn, bi)
+                if src and src.get('kind') == 'call':
+                    for a in src['term']['args']:
+                        toks |= d.of_operand(a)
+                break
+    return toks
+
+
+def depends_on_fat_type(fn, d, o):
+    toks = set(d.of_operand(o))
+    locs = {tk[1] for tk in toks if tk[0] == 'local'}
+    p = op_place(o)
+    if p is not None:
+        locs.add(p['l'])
+    toks |= control_tokens(fn, d, locs)
+    for tk in list(toks):
+        if tk[0] == 'local':
+            ty = fn.local_ty(tk[1]) or {}
+            for _ in range(2):
+                if ty.get('k') in ('ref', 'ptr'):
+                    ty = fn.types[ty['to']]
+            if ty.get('k') == 'adt' and ty.get('path', '').endswith('::FatType'):
+                return True
+        if tk == ('field', 'fat_type'):
+            return True
+        if tk[0] == 'call' and tk[1].endswith(('::is_fat32', 'FatType::from_clusters')):
+            return True
+    return False
+
+
+def run_root_region(ctx, rep):
+    facts = ctx.facts
+    n = 0
+    lscope = layout_scope(facts)
+    for name in sorted(lscope):
+        fn = facts.fns.get(name)
+        if fn is None:
+            continue
+        d = None
+        sites = []
+        for b, t in fn.calls():
+            cal = facts.fns.get(t.get('callee') or '')
+            if cal is None or cal.crate != 'fatfs' or cal.name == fn.name:
+                continue
+            for i in range(1, cal.argc + 1):
+                if (cal.locals[i].get('name') or '') == 'root_dir_sectors' and i - 1 < len(t['args']):
+                    # only callers that know the FAT type are held to it (they pass it on)
+                    passes_ft = any(((cal.local_ty(j) or {}).get('path') or '').endswith('::FatType') for j in range(1, cal.argc + 1))
+                    if passes_ft:
+                        sites.append((b, t['span'], 'argument `root_dir_sectors` of %s' % cal.name.rsplit('::', 1)[-1], t['args'][i - 1]))
+        for bi in fn.reachable():
+            for s in fn.blocks[bi]['stmts']:
+                if s['k'] == 'assign' and s['rv']['k'] == 'agg' and s['rv'].get('ak') == 'adt' and s['rv'].get('fields'):
+                    for fname in ('root_dir_sectors', 'root_entries'):
+                        if fname in s['rv']['fields'] and ('fat_type' in s['rv']['fields'] or fname == 'root_entries'):
+                            sites.append((bi, s['span'], 'field `%s` of %s' % (fname, s['rv']['adt'].rsplit('::', 1)[-1]),
+                                          s['rv']['ops'][s['rv']['fields'].index(fname)]))
+        for b, span, what, o in sites:
+            if d is None:
+                d = Deps(fn)
+            toks0 = d.of_operand(o)
+            own = [i for i in range(1, fn.argc + 1) if (fn.locals[i].get('name') or '') in ('root_dir_sectors', 'root_entries')]
+            if own and any(('param', i) in toks0 for i in own):
+                continue  # handed on from this function's own parameter: judged at this function's callers
+            n += 1
+            ok = depends_on_fat_type(fn, d, o)
+            rep.oblige('V6', '%s|%s' % (fn.name, what), ok=ok, nontrivial=True,
+                       sample={'fn': fn.name, 'at': fn.loc(span), 'what': what,
+                               'rule': 'the value depends (data or control) on the FAT type'})
+            if not ok:
+                rep.violation('V6', vkey('V6', fn.name, what, ''), fn.loc(span),
+                              'the %s in %s does not depend on the FAT type: FAT32 has no fixed root-directory region (its BPB '
+                              'says 0 root entries), so a size that is the same for every FAT type mis-sizes the tables of '
+                              'one of them' % (what, fn.name))
+    rep.counts['V6.sites'] = n
+
+
+_run_v = run
+
+
+def run(ctx, rep):
+    _run_v(ctx, rep)
+    run_root_region(ctx, rep)
